@@ -246,7 +246,10 @@ func queryPoint(r *hx.Rng, iv []ivec, h hull) [3]float64 {
 	if len(iv) == 0 {
 		return [3]float64{quarter(r, -3, 3), quarter(r, -3, 3), quarter(r, -3, 3)}
 	}
-	switch r.Intn(8) {
+	switch r.Intn(9) {
+	case 8: // each coordinate from some vertex: on faces, edges and corners of the elements' boxes
+		a, b, c := iv[r.Intn(len(iv))], iv[r.Intn(len(iv))], iv[r.Intn(len(iv))]
+		return [3]float64{float64(a[0]), float64(b[1]), float64(c[2])}
 	case 0:
 		return fv(iv[r.Intn(len(iv))])
 	case 1:
@@ -304,29 +307,46 @@ func edgeExtension(r *hx.Rng, d setDesc) ([3]float64, bool) {
 	return p, true
 }
 
-func rayDir(r *hx.Rng) [3]float64 {
-	switch r.Intn(6) {
+var negZero = math.Copysign(0, -1)
+
+// rayDir returns the vector the direction is derived from and the derivation ("via").  Zero components
+// get either sign (IEEE -0 compares equal to 0 but 1/-0 = -Inf), also through Flip / Scale(-1) /
+// Zero.Sub / Reflect as client code produces them; a few directions have components so small that 1/dir
+// overflows or is huge.
+func rayDir(r *hx.Rng) ([3]float64, string) {
+	var d [3]float64
+	switch r.Intn(7) {
 	case 0, 1: // axis-parallel: two zero components
-		d := [3]float64{}
 		d[r.Intn(3)] = hx.Pick(r, []float64{1, -1})
-		return d
 	case 2: // one zero component
-		d := [3]float64{float64(r.Range(-4, 4)), float64(r.Range(-4, 4)), float64(r.Range(-4, 4))}
+		d = [3]float64{float64(r.Range(-4, 4)), float64(r.Range(-4, 4)), float64(r.Range(-4, 4))}
 		d[r.Intn(3)] = 0
 		if d == [3]float64{} {
 			d[r.Intn(3)] = 1
 		}
-		return d
 	case 3: // diagonals
-		return [3]float64{hx.Pick(r, []float64{1, -1}), hx.Pick(r, []float64{1, -1}), hx.Pick(r, []float64{1, -1})}
+		d = [3]float64{hx.Pick(r, []float64{1, -1}), hx.Pick(r, []float64{1, -1}), hx.Pick(r, []float64{1, -1})}
+	case 4: // nearly axis-parallel: tiny / subnormal components (1/dir huge or +-Inf)
+		d[r.Intn(3)] = hx.Pick(r, []float64{1, -1})
+		k := r.Intn(3)
+		if d[k] == 0 {
+			d[k] = hx.Pick(r, []float64{1e-300, -1e-300, 5e-324, -5e-324, 1e-12, -1e-9})
+		}
 	default:
-		for {
-			d := [3]float64{float64(r.Range(-9, 9)), float64(r.Range(-9, 9)), float64(r.Range(-9, 9))}
-			if d != [3]float64{} {
-				return d
-			}
+		for d == [3]float64{} {
+			d = [3]float64{float64(r.Range(-9, 9)), float64(r.Range(-9, 9)), float64(r.Range(-9, 9))}
 		}
 	}
+	for k := range d { // every sign pattern of the zeros
+		if d[k] == 0 && r.Bool() {
+			d[k] = negZero
+		}
+	}
+	via := ""
+	if r.Chance(1, 3) {
+		via = hx.Pick(r, []string{"flip", "scale", "sub", "reflect"})
+	}
+	return d, via
 }
 
 func genQueries(r *hx.Rng, d setDesc, iv []ivec, n int, per int) []qDesc {
@@ -376,7 +396,8 @@ func genQueries(r *hx.Rng, d setDesc, iv []ivec, n int, per int) []qDesc {
 	los := []float64{0, 0, 0, 0.5, 3, -2.5, -1000}
 	his := []float64{1, 4.25, 1000, 1e6, 1e6}
 	for k := 0; k < per; k++ {
-		q := qDesc{T: "ray", P: queryPoint(r, iv, h), Dir: rayDir(r), Lo: hx.Pick(r, los), Hi: hx.Pick(r, his)}
+		q := qDesc{T: "ray", P: queryPoint(r, iv, h), Lo: hx.Pick(r, los), Hi: hx.Pick(r, his)}
+		q.Dir, q.Via = rayDir(r)
 		if r.Chance(1, 6) {
 			q.Hi = quarter(r, 0, span) // a cut-off somewhere inside the set
 		}
@@ -386,7 +407,8 @@ func genQueries(r *hx.Rng, d setDesc, iv []ivec, n int, per int) []qDesc {
 		qs = append(qs, q)
 	}
 	for k := 0; k < (per+1)/2; k++ {
-		q := qDesc{T: "trav", P: queryPoint(r, iv, h), Dir: rayDir(r), Lo: hx.Pick(r, []float64{0, 0, -2.5}), Hi: hx.Pick(r, his)}
+		q := qDesc{T: "trav", P: queryPoint(r, iv, h), Lo: hx.Pick(r, []float64{0, 0, -2.5}), Hi: hx.Pick(r, his)}
+		q.Dir, q.Via = rayDir(r)
 		q.Caps = make([]float64, n)
 		for i := range q.Caps {
 			if r.Chance(1, 3) {
@@ -452,6 +474,23 @@ func stdQueries(ps ...[3]float64) []qDesc {
 			qDesc{T: "ray", P: p, Dir: [3]float64{1, 1, 0}, Lo: 0, Hi: 1000},
 			qDesc{T: "ray", P: p, Dir: [3]float64{1, 2, 3}, Lo: 0.5, Hi: 4.25},
 		)
+	}
+	// negative zeros: every sign pattern of the zero components, written directly and as Up().Flip() etc.
+	for i, p := range ps {
+		if i >= 2 {
+			break
+		}
+		for _, zs := range [][2]float64{{0, negZero}, {negZero, 0}, {negZero, negZero}} {
+			qs = append(qs,
+				qDesc{T: "ray", P: p, Dir: [3]float64{zs[0], -1, zs[1]}, Lo: -1000, Hi: 1000},
+				qDesc{T: "ray", P: p, Dir: [3]float64{1, zs[0], zs[1]}, Lo: -1000, Hi: 1000},
+				qDesc{T: "ray", P: p, Dir: [3]float64{zs[0], zs[1], -1}, Lo: -1000, Hi: 1000})
+		}
+		qs = append(qs,
+			qDesc{T: "ray", P: p, Dir: [3]float64{0, 1, 0}, Via: "flip", Lo: -1000, Hi: 1000},
+			qDesc{T: "ray", P: p, Dir: [3]float64{0, 1, 0}, Via: "scale", Lo: -1000, Hi: 1000},
+			qDesc{T: "ray", P: p, Dir: [3]float64{-1, 0, 1}, Via: "flip", Lo: -1000, Hi: 1000},
+			qDesc{T: "trav", P: p, Dir: [3]float64{0, 0, 1}, Via: "scale", Lo: -1000, Hi: 1000})
 	}
 	return qs
 }
@@ -550,14 +589,32 @@ func genBvh(r *hx.Rng, thorough bool) bvhDesc {
 		t := r.Intn(nt)
 		a, b, c := iv[3*t], iv[3*t+1], iv[3*t+2]
 		tx := [3]float64{float64(2*a[0]+b[0]+c[0]) / 4, float64(2*a[1]+b[1]+c[1]) / 4, float64(2*a[2]+b[2]+c[2]) / 4}
+		if r.Chance(1, 3) { // straight along an axis: the direction has two exact zero components
+			d.O = tx
+			d.O[r.Intn(3)] += float64(r.Range(5, 40)) * hx.Pick(r, []float64{1, -1})
+		} else if r.Chance(1, 4) { // in an axis plane: one exact zero component
+			k := r.Intn(3)
+			d.O[k] = tx[k]
+		}
 		d.Dir = [3]float64{tx[0] - d.O[0], tx[1] - d.O[1], tx[2] - d.O[2]}
 		if r.Chance(1, 3) {
 			for k := range d.Dir {
 				d.Dir[k] = -d.Dir[k]
 			}
 		}
+		for k := range d.Dir { // a target straight along an axis: zero components of either sign
+			if d.Dir[k] == 0 && r.Bool() {
+				d.Dir[k] = negZero
+			}
+		}
+		if r.Chance(1, 4) { // the same direction, obtained by negating its opposite
+			for k := range d.Dir {
+				d.Dir[k] = -d.Dir[k]
+			}
+			d.Via = hx.Pick(r, []string{"flip", "scale"})
+		}
 	} else {
-		d.Dir = rayDir(r)
+		d.Dir, d.Via = rayDir(r)
 	}
 	if d.Dir == [3]float64{} {
 		d.Dir = [3]float64{0, 0, 1}
@@ -568,7 +625,6 @@ func genBvh(r *hx.Rng, thorough bool) bvhDesc {
 		d.Hi = quarter(r, 0, 40)
 	}
 	d.Seed = int64(r.Intn(1 << 30))
-	_ = math.Pi
 	return d
 }
 
@@ -591,5 +647,12 @@ func fixedBvh() []bvhDesc {
 	out = append(out, bvhDesc{Verts: verts, Idx: idx, O: [3]float64{0, 0, -2}, Dir: [3]float64{1, 1, 4}, Lo: 0, Hi: 1e6, Seed: 4})
 	out = append(out, bvhDesc{Verts: verts, Idx: idx, O: [3]float64{30, 0, -2}, Dir: [3]float64{0, 0, 1}, Lo: 0, Hi: 1e6, Seed: 5})
 	out = append(out, bvhDesc{Verts: verts[:3], Idx: idx[:3], O: [3]float64{0, 0, -2}, Dir: [3]float64{0, 0, 1}, Lo: 0, Hi: 1e6, Seed: 5})
+	// the same rays with negative-zero components: written out, and as Flip() / Scale(-1) of the opposite
+	for seed := int64(1); seed <= 3; seed++ {
+		out = append(out, bvhDesc{Verts: verts, Idx: idx, O: [3]float64{0, 0, -2}, Dir: [3]float64{negZero, negZero, 1}, Lo: 0, Hi: 1e6, Seed: seed})
+		out = append(out, bvhDesc{Verts: verts, Idx: idx, O: [3]float64{0.25, 0.5, 20}, Dir: [3]float64{0, 0, 1}, Via: "flip", Lo: 0, Hi: 1e6, Seed: seed})
+		out = append(out, bvhDesc{Verts: verts, Idx: idx, O: [3]float64{0.25, 0.5, 20}, Dir: [3]float64{0, 0, 1}, Via: "scale", Lo: 0, Hi: 1e6, Seed: seed})
+		out = append(out, bvhDesc{Verts: verts, Idx: idx, O: [3]float64{0, 0, -2}, Dir: [3]float64{0, negZero, -1}, Via: "flip", Lo: 0, Hi: 1e6, Seed: seed})
+	}
 	return out
 }
